@@ -77,9 +77,7 @@ func (e *SpecEnv) toTerm(v SVal) (Term, error) {
 }
 
 func (u *Unit) bytesContentT(st *State, s SliceV) Term {
-	c := u.m.bytesContent(st, s)
-	c = u.c.Def("content", c)
-	return c
+	return u.m.bytesContent(st, s)
 }
 
 func (e *SpecEnv) eval(x SExpr) (SVal, error) {
@@ -192,7 +190,7 @@ func (e *SpecEnv) selectField(xv SVal, name string) (SVal, error) {
 				if _, isStruct := ft.Underlying().(*types.Struct); isStruct {
 					return SVal{V: q, T: types.NewPointer(ft)}, nil
 				}
-				return SVal{V: u.m.Load(e.st, q), T: ft}, nil
+				return SVal{V: u.loadNoAssume(e.st, q), T: ft}, nil
 			}
 		}
 		// ghost fields of opaque types: declared as heap functions, handled in callSpec
@@ -222,7 +220,7 @@ func (e *SpecEnv) index(xv, iv SVal) (SVal, error) {
 	switch x := xv.V.(type) {
 	case SliceV:
 		elem := xv.T.Underlying().(*types.Slice).Elem()
-		i := Add(x.Off, it)
+		i := ElemIdx(x.Off, it)
 		p := PtrV{Base: x.Arr, Obj: elem, Arr: true, Idx: &i}
 		if _, isStruct := elem.Underlying().(*types.Struct); isStruct {
 			return SVal{V: p, T: types.NewPointer(elem)}, nil
